@@ -68,7 +68,8 @@ claim("C06", "model_checking",
       "each behaviour and each oracle runs in its own process forked from a pristine parent, every call is compared with the same operations on that one object "
       "executed first in a fresh process, and the recorded events are validated against Interp by spec/TraceInterp.tla (history tolerance 1e-9 relative, batch "
       "tolerance 1e-6, or the documented resolution for grid-dependent solvers). A batch-independence sweep (shuffled request with a duplicate and documented edge "
-      "points vs one-point requests) covers every constructible class in both parameter sets.",
+      "points vs one-point requests) covers every constructible class in both parameter sets. spec/InterpDefects.tla names six ways of leaking state as alternative actions; "
+      "on every run TLC shows that each is visible, that one of the replayed templates (InterpPlans) exposes it, and which of them the bystander of the law checks exposes.",
       "Trusted base: TLC; harness/interp.py; a forked child of a parent that only imported exactpack counts as a fresh interpreter; verdicts come from returned values only "
       "(never from module internals). Behaviours are a seeded sample (VERIF_SEED), not exhaustive; Sn / RateStick / ExplosiveArc are not replayed; Guderley is replayed with gamma = 3 and 2 (seconds per call; minutes for 1.4).",
       "TLC model checking of Interp.tla + TLC-generated behaviours replayed with a fresh-process oracle + TLA+ trace validation", "DESIGN.md 9 C06")
